@@ -59,12 +59,13 @@ def reset_table(R, ctx):
     b = ctx.body(r'^writers::file_log_writer::state::State::mount_next_linewriter_if_necessary$')
     rows = mount_rows(ctx)
     n = 0
+    psel = ok_payload_selectors(ctx.f, ctx.body(r'^writers::file_log_writer::state::open_log_file$'), {'path': r'^std::path::PathBuf$'})['path']
     for r in rows:
         for e in r.effects:
             if e[0].endswith('reset_size_and_date'):
                 x = T.strip_refs(e[2]['x'][1])
-                # expected: field 1 (path) of the Ok payload of open_log_file
-                okp = isinstance(x, tuple) and x[0] == 'field' and x[2] in ('1',) and 'open_log_file' in repr(x)
+                # expected: the path field of the Ok payload of open_log_file (tuple element or struct field)
+                okp = isinstance(x, tuple) and x[0] == 'field' and x[2] == psel and 'open_log_file' in repr(x)
                 if not okp:
                     R.bad('R09.3', f"{b.path}|reset-path", f"reset_size_and_date is not given the path of the newly opened file but {e[1][1]}", where=b.loc())
                     return
